@@ -16,7 +16,7 @@ func init() {
 	register(&Property{
 		Meta: report.Meta{
 			Property:    "C19",
-			Explanation: "Must-pass-through and who-may-call rules on the encrypted-metadata code: secretbox.Seal/Open are called only from EncryptWithKey/DecryptStringWithKey; Seal is reached only after validateKey succeeded and after io.ReadFull(crypto/rand.Reader, nonce[:]) succeeded on the very nonce array that is passed to Seal and prefixed to the output, with the key array filled by copy from the validated key and the message being the parameter; decryption validates the key, requires len >= 24 (= nonce length), opens data[24:] with nonce data[:24] and returns the plaintext only when Open reports ok; validateKey rejects nil, length != 32 and all-zero keys (decision table); AddEncrypted hands the plaintext to EncryptWithKey only and stores its checked result; the getters decrypt GetBytes(key); the four WithEncryptedMeta* options pass their own key/value/encryption-key parameters to AddEncrypted. Confidentiality and authentication themselves are the contract of NaCl secretbox.",
+			Explanation: "Must-pass-through and who-may-call rules on the encrypted-metadata code: secretbox.Seal/Open are called only from EncryptWithKey/DecryptStringWithKey; Seal is reached only after validateKey succeeded and after io.ReadFull(crypto/rand.Reader, nonce[:]) succeeded on the very nonce array that is passed to Seal and prefixed to the output, with the key array filled by copy from the validated key and the message being the parameter; decryption validates the key, requires len >= 24 (= nonce length), opens data[24:] with nonce data[:24] and returns the plaintext only when Open reports ok; validateKey rejects nil, length != 32 and all-zero keys (decision table); AddEncrypted hands the plaintext to EncryptWithKey only and stores its checked result; the getters decrypt GetBytes(key); the four WithEncryptedMeta* options pass their own key/value/encryption-key parameters to AddEncrypted. Confidentiality and authentication themselves are the contract of NaCl secretbox. (R7) no returned bytes are views into memory given back to a sync.Pool.",
 			Assumptions: []string{"NaCl secretbox provides confidentiality and authentication", "crypto/rand.Reader is a CSPRNG"},
 			Trusted:     []string{"golang.org/x/crypto/nacl/secretbox", "crypto/rand", "golang.org/x/tools/go/ssa v0.29.0"},
 			NotDecided:  []string{"cryptographic strength", "round-trip equality of the plaintext (runtime value)"},
